@@ -253,6 +253,16 @@ def _main(a, prop, seed, t0, mod, tmpdir):
             print("HARNESS-ERROR: sub-check %s produced no non-trivial case" % s.name)
             rc = 2
 
+    # classes a property declares as mandatory must be populated (generator regression otherwise)
+    if rc == 0 and tier in ("quick", "thorough") and a.scale >= 1.0:
+        for sname, req in getattr(mod, "REQUIRED_CLASSES", {}).items():
+            d = per_sub.get(sname)
+            if d is None or d["budget_hit"]:
+                continue
+            missing = [c for c in req if d["classes"].get(c, 0) == 0]
+            if missing:
+                print("HARNESS-ERROR: sub-check %s never produced required class(es) %s" % (sname, missing))
+                rc = 2
     wall = time.time() - t0
     total_eval = sum(d["evaluations"] for d in per_sub.values())
     total_nt = sum(len(d["nontrivial"]) for d in per_sub.values())
